@@ -20,6 +20,21 @@ CLAIMED = {
    design_ref="DESIGN.md section 6 C13",
    note="tolerances restricted to small denominators (32-bit TLC integers); default 1e-5 tolerance covered by monotonic sandwich only",
    technique="TLA+ exact predicate semantics + TLC enumeration + replay; range postconditions on every accessor call"),
+ "C09": dict(category="model_checking",
+   text="spec/Laws.tla is a state machine executing straight-line programs of public calls (one call per step); TLC enumerates every program of the boost laws (Minkowski product preserved, inverse, velocity addition along an axis, the boost_p4/boost_beta3/boostX-Y-Z beta/gamma/boost()/boostCM_of* spellings, rest frame of boostCM_of_p4) over the exact lattice and checks the invariant LawHolds on the specification's own definitions; every finished behaviour is replayed step by step into the real code with operands stored in varying coordinate systems, each register compared with the specification's and each law evaluated on the code's own outputs (mp 1e-40, float64 1e-9). Thorough adds the TLAPS proofs of the underlying polynomial identities for all integers.",
+   design_ref="DESIGN.md section 6 C09, section 13",
+   note="lattice incl. beta = 4900/4901; result systems chosen by the code; TLAPS covers the specification side only",
+   technique="TLA+ state machine of call programs (Laws.tla), TLC invariant LawHolds, behaviours replayed into the code; TLAPS/Z3 for the polynomial laws"),
+ "C10": dict(category="model_checking",
+   text="As C09 for rotations: lengths/dot/handedness preserved, time untouched, additivity and inverse about a fixed axis, rotate_axis about coordinate axes = rotateX/Y/Z with axis length ignored, quaternion (cos a/2, n sin a/2) = rotate_axis(n, a), rotate_euler for all 12 orders in both letter cases = documented product of three axis rotations, rotate_nautical = rotate_euler(roll, pitch, yaw, 'zyx'); plus every one-call rotation case of Cases.tla in every coordinate signature.",
+   design_ref="DESIGN.md section 6 C10, section 13",
+   note="angles are rational points of the unit circle concretised with 2 pi k offsets (large angles)",
+   technique="TLA+ state machine of call programs (Laws.tla), TLC invariant LawHolds, behaviours replayed into the code; TLAPS/Z3 for the polynomial laws"),
+ "C11": dict(category="model_checking",
+   text="As C09 for the vector-space laws: commutativity/associativity of add, subtract as inverse, distributivity and composition of scale, negation, symmetric bilinear dot (Euclidean/Minkowski) with v.v = rho2/mag2/tau2, cross antisymmetric/orthogonal/Lagrange, unit() of norm one and parallel, abs/**2/numpy.sqrt/cbrt/power as functions of the norm; operators (+ - * / unary -) are used interchangeably with the methods in the replay.",
+   design_ref="DESIGN.md section 6 C11, section 13",
+   note="polar-specialised add/subtract/scale are reached because intermediate results stay in the system the code returned",
+   technique="TLA+ state machine of call programs (Laws.tla), TLC invariant LawHolds, behaviours replayed into the code; TLAPS/Z3 for the polynomial laws"),
 }
 
 def entry(pid, c):
